@@ -12,6 +12,7 @@ pub mod c12;
 pub mod c13;
 pub mod c15;
 pub mod c16;
+pub mod c17;
 
 pub fn lookup(id: &str) -> Option<&'static dyn Property> {
     match id {
@@ -26,6 +27,7 @@ pub fn lookup(id: &str) -> Option<&'static dyn Property> {
         "C13" => Some(&c13::C13),
         "C15" => Some(&c15::C15),
         "C16" => Some(&c16::C16),
+        "C17" => Some(&c17::C17),
         _ => None,
     }
 }
